@@ -49,7 +49,7 @@ ASSUMPTIONS = ["VLoop keeps asyncio FIFO semantics; SimNet pipes behave like rel
 EXPECTED_PROBES = ["accepted_forwarded", "rejected_challenged", "connect_accepted", "connect_rejected", "connect_retry",
                    "tunnel_inner_forwarded", "tunnel_inner_https", "socks_accepted", "socks_rejected", "socks_no_userpass_method",
                    "reverse_401", "proxy_407", "either_verdict", "colon_password_presented", "non_ascii_presented",
-                   "htpasswd_runs", "bcrypt_entries", "same_address_clients", "pipelined_batches", "handled_as_raw_tcp",
+                   "htpasswd_runs", "bcrypt_entries", "same_address_clients", "pipelined_batches",
                    "password_71_or_72_bytes_presented", "password_over_72_bytes_presented",
                    "password_over_72_bytes_presented_socks5", "multibyte_password_over_72_bytes",
                    "valid_password_over_72_bytes", "over_72_bytes_for_bcrypt_user", "over_72_bytes_for_bcrypt_user_socks5",
